@@ -79,7 +79,8 @@ def handle (req : Json) : Except String Json := do
     let subs ← toSubs (← (← getArr req "subs").toList.mapM parseSub)
     let loop ← parseLoop ((req.getObjVal? "loop").toOption.getD Json.null)
     let isSum := (req.getObjValAs? Bool "sum").toOption.getD false
-    match outcome cfg ⟨dims, subs, loop⟩ with
+    let pad := (cj.getObjValAs? Bool "padMissing").toOption.getD false
+    match (if pad then outcomePadded cfg ⟨dims, subs, loop⟩ else outcome cfg ⟨dims, subs, loop⟩) with
     | none => pure (Json.mkObj [("ok", true), ("outcome", "error")])
     | some rows =>
       let rows := if isSum then sumRows rows else rows
